@@ -117,31 +117,27 @@ func H_cache() {
 	vAssert(have && stored == vLoadValue(key), "cache:requested-key-stored")
 }
 
-// vNormReplacement is the reference rewriting of an XPath replacement string
-// for Go's regexp: $N (N = the longest run of digits that names an existing
-// group, 1 <= N <= groups) becomes ${N}; everything else is copied.
+// vNormReplacement is the reference reading of an XPath replacement string,
+// written for Go's regexp: "$" followed by digits refers to group N, where N is
+// the longest run of digits that is a group number of the pattern (0 is the whole
+// match); the digits after it are literal. A single digit beyond the last group
+// is a reference to a group that does not exist (the empty string). Every
+// reference is written ${N} so that Go does not read the characters after it as
+// part of the name; everything else is copied.
 func vNormReplacement(r string, groups int) string {
 	out := ""
 	i := 0
 	for i < len(r) {
 		if r[i] == '$' && i+1 < len(r) && r[i+1] >= '0' && r[i+1] <= '9' {
-			// longest digit run that is a valid group number
-			best, bestEnd := -1, -1
-			n := 0
-			for j := i + 1; j < len(r) && r[j] >= '0' && r[j] <= '9'; j++ {
+			n := int(r[i+1] - '0')
+			j := i + 2
+			for j < len(r) && r[j] >= '0' && r[j] <= '9' && n*10+int(r[j]-'0') <= groups {
 				n = n*10 + int(r[j]-'0')
-				if n >= 1 && n <= groups {
-					best, bestEnd = n, j+1
-				}
-				if n > groups {
-					break
-				}
+				j++
 			}
-			if best >= 0 {
-				out += "${" + strconv.Itoa(best) + "}"
-				i = bestEnd
-				continue
-			}
+			out += "${" + strconv.Itoa(n) + "}"
+			i = j
+			continue
 		}
 		out += r[i : i+1]
 		i++
